@@ -455,7 +455,7 @@ func ruleC13F5(r *Run) {
 			if !isIf {
 				return
 			}
-			l := p.Leaves(ifs.Cond, provOpts{})
+			l := p.Leaves(ifs.Cond, provOpts{WithBase: true})
 			touches := false
 			for _, x := range l {
 				if strings.Contains(x, "compress.Config.") {
@@ -465,13 +465,18 @@ func ruleC13F5(r *Run) {
 			if !touches {
 				return
 			}
+			fromNegotiated := false
 			for _, x := range l {
-				if strings.HasPrefix(x, "field:") && !strings.Contains(x, "compress.Config.") && !strings.HasSuffix(x, ".Transport.compressConfig") {
-					okSel = false
+				b := strings.TrimPrefix(x, "base:")
+				if strings.HasSuffix(b, pkg+".Transport.compressConfig") {
+					fromNegotiated = true
 				}
-				if strings.HasPrefix(x, "field:"+pkg+".Config.") {
-					okSel = false
+				if strings.Contains(b, pkg+".Config.") {
+					okSel = false // the caller's local configuration
 				}
+			}
+			if !fromNegotiated {
+				okSel = false
 			}
 		})
 		r.Check(name+" mode selection reads the negotiated config", okSel, p.pos(ctor.Pos()), name, "the branch conditions choosing the codec functions must read Transport.compressConfig, not the local configuration")
